@@ -620,6 +620,92 @@ func genSpec(r *gen.Rand, n int) {
 	}
 }
 
+// genBuilderSeq: the builder as an object with a history - random CALL SEQUENCES (specifications, explicit and nil bases,
+// layers, Builds in any order and number); the outcome of every Build is compared with the builder machine of the model.
+func genBuilderSeq(r *gen.Rand, n int) {
+	pfOf := func(s string) string {
+		if i := strings.Index(s, "="); i >= 0 {
+			if fs := strings.Split(s[i+1:], ":"); len(fs) >= 3 {
+				if f, err := strconv.ParseFloat(fs[2], 64); err != nil {
+					return "pferr"
+				} else {
+					return fb(f)
+				}
+			}
+		}
+		return "pfnone"
+	}
+	validSpecs := []string{"fixed=7", "fixed=", "random=1:9", "random=:", "exponential=10:100:3", "exponential=::", "exponential=5:50:1.5"}
+	for k := 0; k < n; k++ {
+		bld := retry.NewBackoffBuilder()
+		var toks, outs []string
+		builds := 0
+		// a configuration call that panics is recorded as an extra outcome (the model has none: a disagreement)
+		safe := func(f func()) {
+			defer func() {
+				if rec := recover(); rec != nil {
+					outs = append(outs, fmt.Sprintf("panic in a configuration call (%v)", rec))
+				}
+			}()
+			f()
+		}
+		for steps := 3 + r.Intn(8); steps > 0 || builds == 0; steps-- {
+			switch c := r.Intn(12); {
+			case c < 3: // a specification: mostly valid ones, so that there is a remembered base to go stale
+				sp := validSpecs[r.Intn(len(validSpecs))]
+				if r.Intn(3) == 0 {
+					sp = genSpecString(r)
+				}
+				safe(func() { bld.BaseBackoffSpec(sp) })
+				toks = append(toks, "S", "x"+hex.EncodeToString([]byte(sp)), pfOf(sp))
+			case c == 3: // an explicit base
+				d := int64(r.Intn(1000))
+				fx, _ := retry.NewFixedBackoff(d)
+				safe(func() { bld.BaseBackoff(fx) })
+				toks = append(toks, "B", "F", fmt.Sprint(d))
+			case c == 4:
+				safe(func() { bld.BaseBackoff(nil) })
+				toks = append(toks, "N")
+			case c == 5:
+				lim := 1 + r.Intn(5) - r.Intn(2)*r.Intn(3)
+				safe(func() { bld.WithLimit(lim) })
+				toks = append(toks, "l", fmt.Sprint(lim))
+			case c == 6:
+				lo, hi := jrate(r), jrate(r)
+				if r.Intn(3) > 0 && lo > hi {
+					lo, hi = hi, lo
+				}
+				bld.WithJitterBound(lo, hi)
+				toks = append(toks, "j", fb(lo), fb(hi))
+			case c == 7:
+				x := jrate(r)
+				bld.WithJitter(x)
+				toks = append(toks, "w", fb(x))
+			default:
+				builds++
+				toks = append(toks, "D")
+				outs = append(outs, func() (res string) {
+					defer func() {
+						if recover() != nil {
+							res = "panic"
+						}
+					}()
+					b, err := bld.Build()
+					if err != nil {
+						return "err"
+					}
+					return "ok " + describe(b)
+				}())
+			}
+			if steps < -20 {
+				break
+			}
+		}
+		stats["bseq:builds"] += builds
+		emit("bseq", strings.Join(toks, " "), strings.Join(outs, " ; "))
+	}
+}
+
 func genParseInt(r *gen.Rand, n int) {
 	fixed := []string{"", "+", "-", "0", "-0", "+0", "00", "9223372036854775807", "9223372036854775808", "-9223372036854775808", "-9223372036854775809",
 		"18446744073709551615", "18446744073709551616", "99999999999999999999999", "1_0", "0x1f", "0b1", "0o7", " 1", "1 ", "1.0", "1e1", "+-1", "٣", "١٢", "1\x00", "\xff"}
@@ -671,6 +757,7 @@ func main() {
 			genShared(r, 12)
 		case "spec":
 			genSpec(r, *n)
+			genBuilderSeq(r, *n/2)
 		case "parseint":
 			genParseInt(r, *n)
 		}
